@@ -1510,6 +1510,8 @@ impl<'a, 'b> B<'a, 'b> {
             "  MOV   EAX,  [EBX+4*ECX]", "push   ebp", "\tmov ebp,esp", "@loop:", "  dec ecx;  jnz @loop",
             "  db $90,$90 ,$90", "  mov al, 'x'", "  // comment   in asm", "  call   SysInit.@InitExe",
             "  XOR EAX,EAX   { clear }", "  mov eax, {$ifdef CPUX64} 1 {$else} 2 {$endif}", "  mov   [eax].TFoo.Bar ,  1", "  ret    4", "    LEA  ECX,[EDX*2 + 0FFh]",
+            // instructions terminated by a semicolon
+            "  inc   eax;", "  ret;", "  mov  eax,1 ;",
         ];
         self.tag("asm");
         self.nl();
